@@ -196,6 +196,65 @@ def run_tlc(spec_dir, module, cfg, workers=8, timeout=600, simulate=None, depth=
     return res
 
 
+def run_tlc_stream(spec_dir, module, cfg, tag, workers=8, timeout=3000, xss="1g", xmx="12g", lib=None, cache_key=None,
+                   simulate=None, depth=None, seed=None):
+    """Like run_tlc, but the PrintT(<<tag, json>>) lines are streamed to an ndjson(.gz) file instead of being kept in memory.
+    Returns (TlcResult without tagged, path of the gz file, number of lines)."""
+    spec_dir = os.path.join(SPEC, spec_dir) if not os.path.isabs(spec_dir) else spec_dir
+    libdir = (os.path.join(SPEC, lib) if lib and not os.path.isabs(lib) else lib)
+    os.makedirs(CACHE, exist_ok=True); os.makedirs(WORK, exist_ok=True)
+    key = spec_hash(spec_dir, f"{module}|{cfg}|{simulate}|{depth}|{seed}|{cache_key}|{tag}" + (spec_hash(libdir) if libdir else ""))
+    base = os.path.join(CACHE if cache_key is not None else WORK, f"{module}-{cfg}-{key}")
+    gz = base + ".ndjson.gz"; meta = base + ".meta.json"
+    if cache_key is not None and os.path.exists(gz) and os.path.exists(meta):
+        d = json.load(open(meta))
+        r = TlcResult.from_json(d["res"]); r.cached = True
+        return r, gz, d["n"]
+    metadir = tempfile.mkdtemp(prefix="tlc_", dir=WORK)
+    jopts = [f"-Xss{xss}"] + ([f"-DTLA-Library={libdir}"] if libdir else [])
+    cmd = ["java", f"-Xmx{xmx}", "-XX:+UseParallelGC"] + jopts + ["-cp", TLA_JAR + ":/opt/veriftools/tla/CommunityModules-deps.jar", "tlc2.TLC",
+           "-workers", str(workers), "-metadir", metadir, "-cleanup", "-noGenerateSpecTE", "-config", cfg]
+    if simulate:
+        cmd += ["-simulate", f"num={simulate}"]
+    if depth:
+        cmd += ["-depth", str(depth)]
+    if seed is not None:
+        cmd += ["-seed", str(seed)]
+    cmd.append(module + ".tla")
+    res = TlcResult(); t0 = time.time(); n = 0; other = []
+    pre = '<<"' + tag + '", "'
+    tmp = gz + ".tmp"
+    p = subprocess.Popen(cmd, cwd=spec_dir, stdout=subprocess.PIPE, stderr=subprocess.STDOUT, text=True, errors="replace")
+    try:
+        with gzip.open(tmp, "wt", compresslevel=1) as out:
+            for ln in p.stdout:
+                if ln.startswith(pre):
+                    body = ln.rstrip("\n")[len(pre) - 1:-2]
+                    out.write(json.loads(body) + "\n"); n += 1
+                else:
+                    if len(other) < 5000:
+                        other.append(ln.rstrip("\n"))
+                if time.time() - t0 > timeout:
+                    p.kill(); res.timed_out = True
+                    break
+        p.wait(timeout=60)
+    finally:
+        shutil.rmtree(metadir, ignore_errors=True)
+    res.wall = time.time() - t0
+    _parse_tlc_output("\n".join(other), res)
+    if res.timed_out:
+        res.ok = False
+    if res.ok:
+        os.replace(tmp, gz)
+        json.dump({"res": res.to_json(), "n": n}, open(meta, "w"))
+    else:
+        try:
+            os.remove(tmp)
+        except OSError:
+            pass
+    return res, gz, n
+
+
 def tlc_classpath_probe():
     """Return the java command prefix that `tlc` on PATH uses (so CommunityModules resolve)."""
     return shutil.which("tlc")
